@@ -16,10 +16,15 @@ separately on larger bounds and the whole pipeline on a smaller one:
 (a2) value extraction: ``Key="<escaped v>"`` parses to one element whose field is exactly v
      (Subject/Hash/DNS plain; URI/By through the URL-decoder with '%' rendered as %25).
 (a3) pipeline: two elements, a hostile character in either Subject; the ``first`` authenticator's
-     principal/claims come from element 0 only and the ``last`` one's from element 1 only.
+     identity equals what element 0 alone yields and mentions nothing of element 1, and vice versa
+     for ``last`` (non-interference + anchoring; no exact principal text, claim count or key names).
 (b)  arbitrary header strings: nothing but ``AuthFailure`` escapes; missing => ``proxy_required``;
-     a header without any element (blank / commas) => ``invalid_credential``; anything else
-     authenticates.
+     a header certainly without any element (commas / spaces / tabs) => ``invalid_credential``; anything
+     else either authenticates or is refused as ``invalid_credential`` (no other reason).
+
+Replays judge on the public surface only (``_parse_xfcc`` element fields as documented in
+docs/api/mtls.md, the ``validate=`` hook for the selected element, a real falcon request where WSGI can
+carry the value); the text-level contract of the private splitter alone never prints VIOLATION.
 (c)  ``_split_respecting_quotes``: lossless, equals ``str.split`` without quotes, a quoted segment
      (delimiters, escaped quote/backslash inside) adds no part; ``_unescape_quoted`` inverts the
      escaping; ``_extract_cn`` returns the CN of the given subject wherever it stands.
@@ -28,7 +33,7 @@ separately on larger bounds and the whole pipeline on a smaller one:
 
 from __future__ import annotations
 
-from engine.api import QUICK, REPO, cond, pick
+from engine.api import QUICK, REPO, HarnessModelError, cond, pick
 
 from vgi_rpc.http import _mtls as mt
 from vgi_rpc.http._unauthorized import AuthFailure, AuthReason
@@ -54,7 +59,9 @@ BOUNDS = (
 )
 OUTSIDE = (
     "PEM-in-header factories (cryptography); Cert field contents; urllib.parse.unquote (stdlib, trusted not to raise on str); whether the zero-length header value '' counts as 'missing' or 'empty' "
-    "(either reason accepted); RFC 4514 escapes inside CN beyond trailing-space trimming; several hostile values in the same element at "
+    "(either reason accepted); whether white space other than space/tab alone makes an element, and whether a present header with content is "
+    "accepted or refused as invalid_credential (both allowed; only other exceptions / reasons are breaches); "
+    "RFC 4514 escapes and special characters inside CN, exact CN trimming; several hostile values in the same element at "
     "pipeline level (covered at split level only); headers longer than the stated bounds"
 )
 ASSUMPTIONS = [
@@ -71,13 +78,82 @@ class _Req:
         self._present = present
         self._raw = raw
 
-    def get_header(self, name: str, default=None):  # type: ignore[no-untyped-def]
+    def get_header(self, name: str, required: bool = False, default=None, **_k):  # type: ignore[no-untyped-def]
+        if required:
+            raise HarnessModelError("C43 request fake: get_header(required=True) is not modelled")
         if name.lower() == mt._XFCC_HEADER:
             return self._raw if self._present else default
         return default
 
+    def __getattr__(self, name: str):  # type: ignore[no-untyped-def]
+        raise HarnessModelError(f"C43 request fake: attribute {name!r} is not modelled (get_header only)")
+
 
 _AUTH = {False: mt.mtls_authenticate_xfcc(select_element="first"), True: mt.mtls_authenticate_xfcc(select_element="last")}
+
+
+# ---------------------------------------------------------------------------
+# property-level judgement on the public surface (used by the replays): the documented ``validate=``
+# hook receives the *selected* XfccElement (docs/api/mtls.md), whose fields are documented
+# ---------------------------------------------------------------------------
+
+_SEEN: list = []
+
+
+def _capture(el):  # type: ignore[no-untyped-def]
+    _SEEN.append(el)
+    from vgi_rpc.rpc import AuthContext
+
+    return AuthContext(domain="mtls", authenticated=True, principal="captured", claims={})
+
+
+_AUTH_CAP = {False: mt.mtls_authenticate_xfcc(validate=_capture, select_element="first"),
+             True: mt.mtls_authenticate_xfcc(validate=_capture, select_element="last")}
+
+
+def _real_req(header: str):  # type: ignore[no-untyped-def]
+    """A real falcon request when the WSGI layer can carry the value unchanged, else the get_header fake."""
+    try:
+        import falcon.testing
+
+        req = falcon.testing.create_req(headers={mt._XFCC_HEADER: header})
+        if req.get_header(mt._XFCC_HEADER) == header:
+            return req
+    except Exception:  # noqa: BLE001
+        pass
+    return _Req(True, header)
+
+
+def _selected(header: str, last: bool):  # type: ignore[no-untyped-def]
+    """The element the real authenticator selects (through the public validate= hook)."""
+    _SEEN.clear()
+    _AUTH_CAP[last](_real_req(header))
+    return _SEEN[-1] if _SEEN else None
+
+
+def _judge_header(header: str, want: list) -> str | None:  # type: ignore[type-arg]
+    """Judge a rendered header on real code.  ``want`` = one dict per element the serializer rendered,
+    field name -> value that was rendered (a field left out is not compared).  Breach (returned as text):
+    an exception other than nothing, a different number of elements, a rendered value not read back, or
+    first/last selecting something else than the first/last rendered element."""
+    try:
+        els = mt._parse_xfcc(header)
+        sel = [_selected(header, False), _selected(header, True)]
+    except HarnessModelError:
+        raise
+    except Exception as ex:  # noqa: BLE001
+        return f"header {header!r}: {type(ex).__name__}: {ex}"
+    if len(els) != len(want):
+        return f"header {header!r} renders {len(want)} element(s) but parses into {len(els)}: {els!r}"
+    for k, w in enumerate(want):
+        for name, wv in w.items():
+            if getattr(els[k], name) != wv:
+                return f"header {header!r}: element {k} field {name} rendered as {wv!r}, read back as {getattr(els[k], name)!r}"
+    for which, el, w in (("first", sel[0], want[0]), ("last", sel[1], want[-1])):
+        for name, wv in w.items():
+            if el is None or getattr(el, name) != wv:
+                return f"header {header!r}: select_element={which} handed validate() {el!r}; rendered {name}={wv!r}"
+    return None
 
 
 # ---------------------------------------------------------------------------
@@ -148,12 +224,27 @@ def _split_stage_ok(pairs: list[str]) -> bool:
 
 def _replay_split_one(args: dict) -> str | None:
     v, e = _concrete_val(args["n"], [args["i0"], args["i1"], args["i2"], args["i3"]])
+    return _judge_six({args["slot"]: (v, e)})
+
+
+def _judge_six(hostile: dict) -> str | None:  # type: ignore[type-arg]
+    """Two elements x (Hash, Subject, URI) with the given slots replaced by (value, escaped rendering):
+    judged on the real parser / authenticators, not on what the private splitter returns."""
     pairs = list(_BASE_PAIRS)
-    pairs[args["slot"]] = _KEYS6[args["slot"]] + '="' + e + '"'
-    if _split_stage_ok(pairs):
-        return None
+    vals = list(_BASE)
+    for slot, (v, e) in hostile.items():
+        pairs[slot] = _KEYS6[slot] + '="' + e + '"'
+        vals[slot] = v
     header = ";".join(pairs[:3]) + "," + ";".join(pairs[3:])
-    return f"value {v!r} in slot {args['slot']}: header {header!r} split into {mt._split_respecting_quotes(header, ',')!r}"
+    want = []
+    for base in (0, 3):
+        w = {}
+        for j in range(3):
+            # the split items render '%' raw; a URI value with '%' is legitimately URL-decoded: not compared
+            if not (_KEYS6[base + j] == "URI" and "%" in vals[base + j]):
+                w[_KEYS6[base + j].lower()] = vals[base + j]
+        want.append(w)
+    return _judge_header(header, want)
 
 
 @cond(q=40, t=300, encoded=[mt._split_respecting_quotes], bound="slot 0..5, value = any %d code points" % _N1,
@@ -185,15 +276,9 @@ def split_stage_hostile_first_subject(n: int, i0: int, i1: int, i2: int, i3: int
 
 
 def _replay_split_two(args: dict) -> str | None:
-    _, ea = _concrete_val(args["na"], [args["a0"], args["a1"], args["a2"], 0])
-    _, eb = _concrete_val(args["nb"], [args["b0"], args["b1"], args["b2"], 0])
-    pairs = list(_BASE_PAIRS)
-    pairs[1] = 'Subject="' + ea + '"'
-    pairs[4] = 'Subject="' + eb + '"'
-    if _split_stage_ok(pairs):
-        return None
-    header = ";".join(pairs[:3]) + "," + ";".join(pairs[3:])
-    return f"header {header!r} split into {mt._split_respecting_quotes(header, ',')!r}"
+    va, ea = _concrete_val(args["na"], [args["a0"], args["a1"], args["a2"], 0])
+    vb, eb = _concrete_val(args["nb"], [args["b0"], args["b1"], args["b2"], 0])
+    return _judge_six({1: (va, ea), 4: (vb, eb)})
 
 
 @cond(q=40, t=300, encoded=[mt._split_respecting_quotes], bound="Subject values = any %d / %d code points" % (_N1B, _N1B - 1),
@@ -301,57 +386,84 @@ def _cn_of(base: str, n: int, cps: list) -> str:  # type: ignore[type-arg]
     return out
 
 
-def _pipeline_ok(slot: bool, n: int, cps: list) -> bool:  # type: ignore[type-arg]
-    v, e = "", ""
+_M0, _M1 = "alice", "bobby"  # longer than any hostile suffix in the bound: a hostile value cannot spell the other marker
+
+
+def _mentions(ctx, marker: str) -> bool:  # type: ignore[no-untyped-def]
+    """True iff the identity (principal or any claim value) contains ``marker``."""
+    if marker in ctx.principal:
+        return True
+    for val in ctx.claims.values():
+        if isinstance(val, str):
+            if marker in val:
+                return True
+        elif isinstance(val, (list, tuple)):
+            for x in val:
+                if isinstance(x, str) and marker in x:
+                    return True
+    return False
+
+
+def _same_identity(a, b) -> bool:  # type: ignore[no-untyped-def]
+    return a.principal == b.principal and dict(a.claims) == dict(b.claims) and a.authenticated is b.authenticated
+
+
+def _pipeline_elements(slot: bool, n: int, cps: list) -> tuple[str, str]:  # type: ignore[type-arg]
+    e = ""
     k = 0
     for i in cps:
         if k >= n:
             break
-        v = v + chr(i)
         e = e + _qc(chr(i))
         k += 1
-    s0 = "CN=a" + (v if not slot else "")
-    s1 = "CN=b" + (v if slot else "")
-    r0 = "CN=a" + (e if not slot else "")
-    r1 = "CN=b" + (e if slot else "")
-    header = 'Subject="' + r0 + '",Subject="' + r1 + '"'
+    return ('Subject="CN=' + _M0 + (e if not slot else "") + '"', 'Subject="CN=' + _M1 + (e if slot else "") + '"')
+
+
+def _pipeline_ok(slot: bool, n: int, cps: list, mk=None) -> bool:  # type: ignore[type-arg,no-untyped-def]
+    """Property-level only: 'the identity returned comes only from the selected element'.
+
+    (1) non-interference: what ``first`` returns for ``el0,el1`` is what the authenticator returns for
+        ``el0`` alone, and ``last`` likewise for ``el1`` — whatever trimming / DN decoding the code applies;
+    (2) anchoring: the first identity is alice's (principal = the documented Subject CN, which begins with
+        the marker) and mentions nothing of bobby's element, and vice versa.
+    No exact principal text, no claim count, no claim key names."""
+    mk = mk or (lambda h: _Req(True, h))
+    el0, el1 = _pipeline_elements(slot, n, cps)
+    header = el0 + "," + el1
     try:
-        first = _AUTH[False](_Req(True, header))
-        last = _AUTH[True](_Req(True, header))
+        first = _AUTH[False](mk(header))
+        last = _AUTH[True](mk(header))
+        alone0 = _AUTH[False](mk(el0))
+        alone1 = _AUTH[True](mk(el1))
+    except HarnessModelError:
+        raise
     except Exception:  # noqa: BLE001
         return False
-    if first.claims.get("subject") != s0 or last.claims.get("subject") != s1:
+    if not (first.authenticated is True and last.authenticated is True):
         return False
-    if "\\" in v:
-        # RFC 4514 escapes inside the CN are outside the claim; the subject claim above still pins the element
-        want0, want1 = first.principal, last.principal
-    else:
-        want0 = _cn_of("a", 0 if slot else n, cps)
-        want1 = _cn_of("b", n if slot else 0, cps)
-    if first.principal != want0 or last.principal != want1:
+    if not (_same_identity(first, alone0) and _same_identity(last, alone1)):
         return False
-    return first.authenticated is True and last.authenticated is True and len(first.claims) == 1 and len(last.claims) == 1
+    if not (isinstance(first.principal, str) and first.principal.startswith(_M0) and last.principal.startswith(_M1)):
+        return False
+    return not _mentions(first, _M1) and not _mentions(last, _M0)
 
 
 def _replay_pipeline(args: dict) -> str | None:
     cps = [args["i0"], args["i1"]]
-    if _pipeline_ok(bool(args["slot"]), args["n"], cps):
+    if _pipeline_ok(bool(args["slot"]), args["n"], cps, mk=_real_req):
         return None
-    v, e = _concrete_val(args["n"], cps + [0, 0])
-    r0 = "CN=a" + (e if not args["slot"] else "")
-    r1 = "CN=b" + (e if args["slot"] else "")
-    header = 'Subject="' + r0 + '",Subject="' + r1 + '"'
-    import falcon.testing
-
+    el0, el1 = _pipeline_elements(bool(args["slot"]), args["n"], cps)
+    header = el0 + "," + el1
     try:
-        req = falcon.testing.create_req(headers={mt._XFCC_HEADER: header})
-        f, l = _AUTH[False](req), _AUTH[True](req)
-        return f"header {header!r}: first -> principal {f.principal!r} claims {dict(f.claims)!r}; last -> principal {l.principal!r} claims {dict(l.claims)!r}"
+        f, l = _AUTH[False](_real_req(header)), _AUTH[True](_real_req(header))
+        a0, a1 = _AUTH[False](_real_req(el0)), _AUTH[True](_real_req(el1))
+        return (f"header {header!r}: first -> principal {f.principal!r} claims {dict(f.claims)!r} (element 0 alone: {a0.principal!r} {dict(a0.claims)!r}); "
+                f"last -> principal {l.principal!r} claims {dict(l.claims)!r} (element 1 alone: {a1.principal!r} {dict(a1.claims)!r})")
     except Exception as ex:  # noqa: BLE001
         return f"header {header!r}: {type(ex).__name__}: {ex}"
 
 
-@cond(q=60, t=400, encoded=ENCODED, bound="Subject 'CN=a'/'CN=b' + any %d code points below %#x appended to either" % (_N3, _CP3),
+@cond(q=150, t=600, encoded=ENCODED, bound="Subject 'CN=alice'/'CN=bobby' + any %d code points below %#x appended to either" % (_N3, _CP3),
       replay=_replay_pipeline, signature=lambda args, conc: "C43:pipeline:identity-not-from-selected-element")
 def pipeline_identity_from_selected_element(slot: bool, n: int, i0: int, i1: int) -> bool:
     """
@@ -377,42 +489,82 @@ def _raw_of(n: int, cps: list) -> str:  # type: ignore[type-arg]
     return raw
 
 
-def _arbitrary_ok(present: bool, raw: str, blank: bool, last: bool) -> bool:
+def _breach(present: bool, raw: str, blank, last: bool, mk=None):  # type: ignore[no-untyped-def]
+    """None = an outcome the property allows, else the kind of breach.
+
+    ``blank`` (bool or a thunk, evaluated after the call) = the header is *certainly* without any element:
+    nothing but commas, spaces and tabs.  What the property states and nothing more:
+    missing -> AuthFailure(proxy_required); certainly-empty -> AuthFailure(invalid_credential) (a zero-length
+    value may count as missing); any other value -> either an authenticated context or AuthFailure
+    (invalid_credential) - a hardened parser may refuse garbage - and never another exception or reason."""
     try:
-        ctx = _AUTH[last](_Req(present, raw))
+        ctx = _AUTH[last](mk(present, raw) if mk else _Req(present, raw))
     except AuthFailure as e:
         if not present:
-            return e.reason is AuthReason.PROXY_REQUIRED
+            return None if e.reason is AuthReason.PROXY_REQUIRED else "missing-header:wrong-reason"
         if raw == "":
-            return e.reason is AuthReason.PROXY_REQUIRED or e.reason is AuthReason.INVALID_CREDENTIAL
-        # present and non-empty: only a header without any element may be refused, as invalid_credential
-        return e.reason is AuthReason.INVALID_CREDENTIAL and blank
+            return None if (e.reason is AuthReason.PROXY_REQUIRED or e.reason is AuthReason.INVALID_CREDENTIAL) else "empty-header:wrong-reason"
+        return None if e.reason is AuthReason.INVALID_CREDENTIAL else "refused-header:wrong-reason"
+    except HarnessModelError:
+        raise
     except Exception:  # noqa: BLE001
-        return False
-    if not present or blank:
-        return False
-    return ctx.authenticated is True and ctx.domain == "mtls" and isinstance(ctx.principal, str)
-
-
-def _replay_arbitrary(args: dict) -> str | None:
-    if "i0" in args:
-        raw = "".join(chr(args[k]) for k in ("i0", "i1", "i2", "i3")[: args["n"]])
-    else:
-        raw = "".join(" ,\t"[args[k]] for k in ("k0", "k1", "k2", "k3", "k4", "k5", "k6")[: args["n"]])
-    present = bool(args.get("present", True))
-    blank = raw.replace(",", "").strip() == ""
-    for last in (False, True):
-        if not _arbitrary_ok(present, raw, blank, last):
-            try:
-                got = repr(_AUTH[last](_Req(present, raw)))
-            except Exception as e:  # noqa: BLE001
-                got = f"{type(e).__name__}({e}) reason={getattr(e, 'reason', None)!r}"
-            return f"x-forwarded-client-cert {'absent' if not present else repr(raw)} (select {'last' if last else 'first'}) -> {got}"
+        return "other-exception-escapes"
+    if not present:
+        return "missing-header:accepted"
+    if raw == "" or (blank() if callable(blank) else blank):
+        return "empty-header:accepted"
+    if not (ctx.authenticated is True and isinstance(ctx.principal, str)):
+        return "accepted-without-identity"
     return None
 
 
+def _arbitrary_ok(present: bool, raw: str, blank: bool, last: bool) -> bool:
+    return _breach(present, raw, blank, last) is None
+
+
+def _real_req2(present: bool, raw: str):  # type: ignore[no-untyped-def]
+    if present:
+        return _real_req(raw)
+    import falcon.testing
+
+    return falcon.testing.create_req()
+
+
+def _strictly_blank(raw: str) -> bool:
+    return all(c in ", \t" for c in raw)
+
+
+def _arbitrary_raw(args: dict) -> str:
+    if "i0" in args:
+        return "".join(chr(args[k]) for k in ("i0", "i1", "i2", "i3")[: args["n"]])
+    if "k6" in args:
+        return "".join(" ,\t"[args[k]] for k in ("k0", "k1", "k2", "k3", "k4", "k5", "k6")[: args["n"]])
+    return "".join(_ALPHA[args[k]] for k in ("k0", "k1", "k2", "k3", "k4")[: args["n"]])
+
+
+def _replay_arbitrary(args: dict) -> str | None:
+    """Real falcon request (when WSGI can carry the value), real authenticators, property-level outcome only."""
+    raw = _arbitrary_raw(args)
+    present = bool(args.get("present", True))
+    lasts = (bool(args["last"]),) if "last" in args else (False, True)
+    for last in lasts:
+        kind = _breach(present, raw, _strictly_blank(raw), last, mk=_real_req2)
+        if kind is not None:
+            try:
+                got = repr(_AUTH[last](_real_req2(present, raw)))
+            except Exception as e:  # noqa: BLE001
+                got = f"{type(e).__name__}({e}) reason={getattr(e, 'reason', None)!r}"
+            return f"{kind}: x-forwarded-client-cert {'absent' if not present else repr(raw)} (select {'last' if last else 'first'}) -> {got}"
+    return None
+
+
+def _sig_arbitrary(args: dict, conc) -> str:  # type: ignore[no-untyped-def]
+    r = _replay_arbitrary(args)
+    return "C43:arbitrary-header:" + (r.split(": ", 1)[0] if r else "wrong-outcome")
+
+
 @cond(q=60, t=900, encoded=ENCODED, bound="any %d code points below %#x (select=first; select=last too for len<=1)" % (_NH, _CPH),
-      replay=_replay_arbitrary, signature=lambda args, conc: "C43:arbitrary-header:wrong-outcome")
+      replay=_replay_arbitrary, signature=_sig_arbitrary)
 def arbitrary_header_only_authfailure(n: int, i0: int, i1: int, i2: int, i3: int) -> bool:
     """
     pre: 0 <= n <= _NH and 0 <= i0 < _CPH and 0 <= i1 < _CPH and 0 <= i2 < _CPH and 0 <= i3 < _CPH
@@ -425,10 +577,11 @@ def arbitrary_header_only_authfailure(n: int, i0: int, i1: int, i2: int, i3: int
 
 
 def _is_blank(n: int, cps: tuple) -> bool:  # type: ignore[type-arg]
-    """Only commas and white space (a quote or any other character makes an element)."""
+    """*Certainly* no element: only commas and the HTTP optional white space (space, tab).  Whether other
+    white space (VT, FF, FS..US, Unicode spaces) makes an element is the parser's choice: either outcome."""
     k = 0
     for i in cps:
-        if k < n and not (chr(i) == "," or chr(i).isspace()):
+        if k < n and not (i == 44 or i == 32 or i == 9):
             return False
         k += 1
     return True
@@ -436,17 +589,7 @@ def _is_blank(n: int, cps: tuple) -> bool:  # type: ignore[type-arg]
 
 def _arbitrary_lazy(raw: str, n: int, cps: tuple, last: bool) -> bool:  # type: ignore[type-arg]
     """Same judgement as _arbitrary_ok for a present header; the blank-ness oracle is evaluated after the call."""
-    try:
-        ctx = _AUTH[last](_Req(True, raw))
-    except AuthFailure as e:
-        if n == 0:
-            return e.reason is AuthReason.PROXY_REQUIRED or e.reason is AuthReason.INVALID_CREDENTIAL
-        return e.reason is AuthReason.INVALID_CREDENTIAL and _is_blank(n, cps)
-    except Exception:  # noqa: BLE001
-        return False
-    if n == 0 or _is_blank(n, cps):
-        return False
-    return ctx.authenticated is True and ctx.domain == "mtls" and isinstance(ctx.principal, str)
+    return _breach(True, raw, lambda: _is_blank(n, cps), last) is None
 
 
 _ALPHA = ['"', "\\", ",", ";", "=", " ", "%", "a", "B"]
@@ -467,21 +610,11 @@ def _alpha_raw(n: int, ks: tuple) -> str:  # type: ignore[type-arg]
 
 
 def _replay_alpha(args: dict) -> str | None:
-    ks = tuple(args[k] for k in ("k0", "k1", "k2", "k3", "k4"))
-    raw = "".join(_ALPHA[k] for k in ks[: args["n"]])
-    cps = tuple(ord(c) for c in raw) + (0,) * 5
-    for last in (False, True):
-        if not _arbitrary_lazy(raw, args["n"], cps, last):
-            try:
-                got = repr(_AUTH[last](_Req(True, raw)))
-            except Exception as e:  # noqa: BLE001
-                got = f"{type(e).__name__}({e}) reason={getattr(e, 'reason', None)!r}"
-            return f"x-forwarded-client-cert {raw!r} (select {'last' if last else 'first'}) -> {got}"
-    return None
+    return _replay_arbitrary(args)
 
 
 @cond(q=60, t=900, encoded=ENCODED, bound="every string of <=%d characters over the structural alphabet %s (select=last for len<=2 only)" % (_NA, "".join(_ALPHA)),
-      replay=_replay_alpha, signature=lambda args, conc: "C43:arbitrary-header:wrong-outcome")
+      replay=_replay_alpha, signature=_sig_arbitrary)
 def structural_alphabet_header_only_authfailure(n: int, k0: int, k1: int, k2: int, k3: int, k4: int) -> bool:
     """
     pre: 0 <= n <= _NA and 0 <= k0 <= 8 and 0 <= k1 <= 8 and 0 <= k2 <= 8 and 0 <= k3 <= 8 and 0 <= k4 <= 8
@@ -493,7 +626,9 @@ def structural_alphabet_header_only_authfailure(n: int, k0: int, k1: int, k2: in
     return _arbitrary_lazy(raw, n, cps, False) and (n > 2 or _arbitrary_lazy(raw, n, cps, True))
 
 
-@cond(q=10, t=30, encoded=[mt.mtls_authenticate_xfcc], bound="header absent, select first/last")
+@cond(q=10, t=30, encoded=[mt.mtls_authenticate_xfcc], bound="header absent, select first/last",
+      replay=lambda a: _replay_arbitrary({"present": False, "n": 0, "i0": 0, "i1": 0, "i2": 0, "i3": 0, "last": a["last"]}),
+      signature=lambda args, conc: "C43:missing-header:not-proxy-required")
 def missing_header_is_proxy_required(last: bool) -> bool:
     """
     post: _
@@ -536,7 +671,75 @@ def blank_header_is_invalid_credential(last: bool, n: int, k0: int, k1: int, k2:
 _LT = pick(3, 4)
 
 
-@cond(q=40, t=200, encoded=[mt._split_respecting_quotes], bound="any str len<=%d, delimiter ',' or ';'" % _LT)
+def _replay_plain_split(args: dict) -> str | None:
+    """The in-harness check is about the private splitter's text-level contract; VIOLATION needs the
+    property-level consequence on the real parser: for quote-free text, ',' separates elements and ';' pairs."""
+    text, semi = args["text"], bool(args["semi"])
+    if '"' in text:
+        return None  # quoted text is judged by the items that render quoted values
+    try:
+        if not semi:
+            pieces = text.split(",")
+            if any(p.strip() == "" and not _strictly_blank(p) for p in pieces):
+                return None  # a piece of unusual white space only: element or not is the parser's choice
+            want_n = sum(1 for p in pieces if p.strip() != "")
+            els = mt._parse_xfcc(text)
+            if len(els) != want_n:
+                return f"quote-free header {text!r} has {want_n} non-empty comma-separated element(s), parsed into {len(els)}: {els!r}"
+            return None
+        if "," in text:
+            return None
+        pieces = text.split(";")
+        header = ";".join("DNS=" + p for p in pieces)
+        els = mt._parse_xfcc(header)
+        got = [x.strip() for x in els[0].dns] if len(els) == 1 else None
+        if got != [p.strip() for p in pieces]:
+            return f"header {header!r}: {len(pieces)} DNS pair(s) rendered, parsed into {els!r}"
+        return None
+    except HarnessModelError:
+        raise
+    except Exception as ex:  # noqa: BLE001
+        return f"quote-free text {text!r}: {type(ex).__name__}: {ex}"
+
+
+def _replay_quoted_segment(args: dict) -> str | None:
+    """Property level: a quoted value holding delimiters / an escaped quote / an escaped backslash neither
+    splits its element (pair) nor swallows the next one.  Free neighbours x, y other than plain
+    alphanumerics are a text-level matter of the private splitter: not judged here."""
+    d = ";" if args["semi"] else ","
+    x = chr(args["x0"]) if args["nx"] else ""
+    y = chr(args["y0"]) if args["ny"] else ""
+    a, b = chr(args["a0"]), chr(args["b0"])
+    if '"' in (x, y, a, b) or "\\" in (a, b) or not all(c == "" or (c.isascii() and c.isalnum()) for c in (x, y)):
+        return None
+    mid, plain = [("", ""), ('\\"', '"'), ("\\\\", "\\")][args["esc"]]
+    quoted = '"' + a + d + mid + d + b + '"'
+    inner = a + d + plain + d + b
+    if args["semi"]:
+        header = "Hash=" + x + quoted + y + ';Subject="CN=one",Subject="CN=two"'
+        field, subj0 = "hash", "CN=one"
+    else:
+        header = "Subject=" + x + quoted + y + ',Subject="CN=two"'
+        field, subj0 = "subject", None
+    try:
+        els = mt._parse_xfcc(header)
+        sel_last = _selected(header, True)
+    except HarnessModelError:
+        raise
+    except Exception as ex:  # noqa: BLE001
+        return f"header {header!r}: {type(ex).__name__}: {ex}"
+    if len(els) != 2 or els[1].subject != "CN=two" or sel_last is None or sel_last.subject != "CN=two":
+        return f"header {header!r} renders two elements, the last one Subject=CN=two; parsed {els!r}, last selects {sel_last!r}"
+    if subj0 is not None and els[0].subject != subj0:
+        return f"header {header!r}: element 0 Subject rendered as {subj0!r}, read back {els[0].subject!r}"
+    got = getattr(els[0], field)
+    if got is None or (got != inner if (x == "" and y == "") else not (a + d in got and d + b in got)):
+        return f"header {header!r}: element 0 {field} rendered from {inner!r}, read back {got!r}"
+    return None
+
+
+@cond(q=40, t=200, encoded=[mt._split_respecting_quotes], bound="any str len<=%d, delimiter ',' or ';'" % _LT,
+      replay=_replay_plain_split, signature=lambda args, conc: "C43:split:quote-free-text-not-plainly-split")
 def split_is_lossless_and_plain_without_quotes(text: str, semi: bool) -> bool:
     """
     pre: len(text) <= _LT
@@ -555,7 +758,8 @@ def split_is_lossless_and_plain_without_quotes(text: str, semi: bool) -> bool:
 
 
 @cond(q=40, t=200, encoded=[mt._split_respecting_quotes],
-      bound="x + '\"' + a + d + (nothing | escaped quote | escaped backslash) + d + b + '\"' + y; x,y any code point or empty (not quote); a,b any code point (not quote/backslash)")
+      bound="x + '\"' + a + d + (nothing | escaped quote | escaped backslash) + d + b + '\"' + y; x,y any code point or empty (not quote); a,b any code point (not quote/backslash)",
+      replay=_replay_quoted_segment, signature=lambda args, conc: "C43:split:quoted-segment-splits-or-merges")
 def split_quoted_segment_adds_no_part(semi: bool, esc: int, nx: int, x0: int, ny: int, y0: int, a0: int, b0: int) -> bool:
     """
     pre: 0 <= esc <= 2 and 0 <= nx <= 1 and 0 <= ny <= 1 and 0 <= x0 < _CP and 0 <= y0 < _CP and 0 <= a0 < _CP and 0 <= b0 < _CP
@@ -608,7 +812,29 @@ def unescape_inverts_escape(n: int, i0: int, i1: int, i2: int, i3: int) -> bool:
         return False
 
 
-@cond(q=60, t=300, encoded=[mt._extract_cn], bound="CN value = 'x' + any %d code points (no backslash), at three positions of the DN" % pick(1, 2))
+def _replay_cn(args: dict) -> str | None:
+    """Through the real authenticator: the principal is the CN of *this* subject (docs/api/mtls.md: 'None uses
+    Subject CN'), compared modulo surrounding white space; never the 'evil' of the escaped O value.  Suffixes
+    holding RFC 4514 special characters (a stricter DN reader may read or refuse them differently) are not judged."""
+    v = "".join(chr(args[k]) for k in ("i0", "i1")[: args["n"]])
+    if any(c in v for c in '\\"+;<>#='):
+        return None
+    cn = ("x" + v).split(",")[0]
+    subject = ["CN=x" + v + ",O=acme", "O=acme,CN=x" + v, "O=a\\,CN=evil,cn=x" + v + ",OU=y"][args["pos"]]
+    header = "Subject=" + _q(subject)
+    try:
+        got = _AUTH[False](_real_req(header)).principal
+    except HarnessModelError:
+        raise
+    except Exception as ex:  # noqa: BLE001
+        return f"header {header!r}: {type(ex).__name__}: {ex}"
+    if not isinstance(got, str) or got.strip() != cn.strip():
+        return f"header {header!r}: subject {subject!r} has CN {cn!r}, principal is {got!r}"
+    return None
+
+
+@cond(q=60, t=300, encoded=[mt._extract_cn], bound="CN value = 'x' + any %d code points (no backslash), at three positions of the DN" % pick(1, 2),
+      replay=_replay_cn, signature=lambda args, conc: "C43:cn:principal-not-the-subjects-cn")
 def extract_cn_is_positional_and_local(pos: int, n: int, i0: int, i1: int) -> bool:
     """
     pre: 0 <= pos <= 2 and 0 <= n <= _N3 and 0 <= i0 < _CP and 0 <= i1 < _CP
